@@ -137,7 +137,8 @@ for _t in ("generator", "iterator", "map", "dictkeys", "dictitems", "enumerate",
 # class_=, a dict for style= ...): every function refuses them exactly as Tag() does
 _BAD_ATTRS = [("datetime", "date"), ("datetime", "datetime"), ("datetime", "time"), ("src", "path"), ("href", "path"), ("class_", "list"), ("class_", "set"), ("style", "dict"),
               ("data", "bytes"), ("value", "decimal"), ("width", "fraction"), ("id", "uuid"), ("onclick", "callable"), ("data_x", "object"), ("points", "tuple"), ("viewBox", "tuple"),
-              ("dur", "timedelta"), ("d", "list"), ("transform", "complex"), ("srcset", "list"), ("content", "dict"), ("title", "bytes"), ("for_", "object"), ("aria_hidden", "object")]
+              ("dur", "timedelta"), ("d", "list"), ("for_", "tag"), ("form", "tag"), ("list", "tag"), ("aria_labelledby", "tag"), ("aria_describedby", "taglist"), ("for_", "taglist"),
+              ("headers", "tag"), ("popovertarget", "tag"), ("href", "tag"), ("src", "dep"), ("data_target", "tag"), ("usemap", "tag"), ("for_", "tagfunction"), ("slot", "tag"), ("is_", "tag"), ("transform", "complex"), ("srcset", "list"), ("content", "dict"), ("title", "bytes"), ("for_", "object"), ("aria_hidden", "object")]
 for _n, _b in _BAD_ATTRS:
     INVALID_PROBES.append({"kids": [], "dicts": [], "kw": [[_n, {"t": "bad", "v": _b}]]})
     INVALID_PROBES.append({"kids": [_T("k")], "dicts": [[[_n.rstrip("_").replace("_", "-"), {"t": "bad", "v": _b}]]], "kw": [["id", S_("i")]]})
